@@ -10,6 +10,21 @@ from ..mon.client import call
 ID = "C20"
 CARRIERS = [("S\tA\t*", None), ("L\tA\t+\tB\t-\t*", None), ("E\t*\tA+\tB-\t0\t1\t0\t1\t*", None), ("H", None),
             ("S\tA\t10\t*", None)]
+# (carrier text, version, lines it needs in a Gfa, identifier) -- the carriers above stand alone;
+# these are also connected to a Gfa, and then live through a later operation
+CONNECTED = [
+    ("S\tA\t*", "gfa1", [], "A"),
+    ("L\tA\t+\tB\t-\t*", "gfa1", ["S\tA\t*", "S\tB\t*"], None),
+    ("C\tA\t+\tB\t-\t0\t*", "gfa1", ["S\tA\t*", "S\tB\t*"], None),
+    ("P\tp1\tA+,B-\t*", "gfa1", ["S\tA\t*", "S\tB\t*", "L\tA\t+\tB\t-\t*"], "p1"),
+    ("S\tA\t10\t*", "gfa2", [], "A"),
+    ("E\te1\tA+\tB-\t5\t10$\t0\t5\t*", "gfa2", ["S\tA\t10\t*", "S\tB\t10\t*"], "e1"),
+    ("F\tA\tread+\t0\t5\t0\t5\t*", "gfa2", ["S\tA\t10\t*"], None),
+    ("G\tg1\tA+\tB-\t5\t*", "gfa2", ["S\tA\t10\t*", "S\tB\t10\t*"], "g1"),
+    ("O\to1\tA+ B-", "gfa2", ["S\tA\t10\t*", "S\tB\t10\t*", "E\te1\tA+\tB-\t5\t10$\t0\t5\t*"], "o1"),
+    ("U\tu1\tA B", "gfa2", ["S\tA\t10\t*", "S\tB\t10\t*"], "u1"),
+    ("X\tabc\tdef", "gfa2", [], None),
+]
 DEFAULT_DT = {"int": "i", "float": "f", "str": "Z", "char": "Z", "json": "J", "intarray": "B", "floatarray": "B",
               "bytes": "H"}
 KINDS = ["int", "float", "str", "char", "json", "intarray", "floatarray", "bytes"]
@@ -56,9 +71,14 @@ def cases(rng, tier, shard, nshards):
             # a clone of the line got a value of another class under the same tag name before
             k2 = rng.choice([k for k in KINDS if k != kind])
             sib = {"kind": k2, "value": V.py_value(rng, k2)}
-        yield {"kind": kind, "value": v, "good": good, "how": rng.choice(["set", "attr", "datatype"]),
-               "carrier": rng.randrange(len(CARRIERS)), "vlevel": rng.choice([0, 1, 2, 3]),
-               "tag": V.tagname(rng), "sibling": sib}
+        c = {"kind": kind, "value": v, "good": good, "how": rng.choice(["set", "attr", "datatype"]),
+             "carrier": rng.randrange(len(CARRIERS)), "vlevel": rng.choice([0, 1, 2, 3]),
+             "tag": V.tagname(rng), "sibling": sib}
+        if rng.random() < 0.3:
+            c["connected"] = rng.randrange(len(CONNECTED))
+            c["post"] = rng.choice(["none", "rename", "group-line", "group-line", "reparse", "readd"])
+            c["when"] = rng.choice(["before-connect", "after-connect"])
+        yield c
 
 
 def bad_value(rng):
@@ -151,12 +171,95 @@ def run_anyclass(case, ctx):
         ctx.violation("written-line-unparsable/anyclass/%s" % pr.cls(), "%s: %r" % (cell, str(line)))
 
 
+def _connect(ctx, line, ver, base, vlevel):
+    g = gfapy.Gfa(version=ver, vlevel=vlevel)
+    for b in base:
+        g.add_line(b)
+    r = call(ctx, "add_line(Line)", g.add_line, line)
+    if not r.ok:
+        ctx.violation("carrier-refused/%s" % r.cls(), "%r: %s" % (str(line), str(r.exc)[:200]), prop="C01")
+        return None
+    return g
+
+
+def _after_connected(case, ctx, line, g, kind, v, tag, want_dt, cell):
+    """the line carrying the tag becomes (or is) a line of a Gfa and lives through a later
+    operation: the tag is still written in its datatype and read back equal."""
+    text, ver, base, ident = CONNECTED[case["connected"]]
+    post = case["post"]
+    if g is None:
+        g = _connect(ctx, line, ver, base, case["vlevel"])
+        if g is None:
+            return
+    cur = line
+    rt = text.split("\t")[0]
+    if post == "rename" and ident is not None:
+        r = call(ctx, "rename", lambda: setattr(line, "name", "zq9"))
+        if not r.ok:
+            return
+    elif post == "group-line" and rt in ("O", "U"):
+        more = "O\to1\tB-" if rt == "O" else "U\tu1\tB"
+        r = call(ctx, "add_line(further line of the group)", g.add_line, more)
+        if not r.ok:
+            ctx.violation("group-line-refused/%s" % r.cls(), "%r then %r: %s" % (str(line), more, str(r.exc)[:200]), prop="C17")
+            return
+        cur = g.line(ident)
+    elif post == "readd":
+        r1 = call(ctx, "disconnect", line.disconnect)
+        r2 = call(ctx, "add_line(Line)", g.add_line, line)
+        if not (r1.ok and r2.ok):
+            return
+    elif post == "reparse":
+        w = call(ctx, "str(Gfa)", str, g)
+        if not w.ok:
+            ctx.violation("gfa-with-valid-tag-not-writable/%s" % kind, "%s: %s" % (cell, w.cls()))
+            return
+        r = call(ctx, "Gfa(str(Gfa))", gfapy.Gfa, w.value, version=ver, vlevel=max(1, case["vlevel"]))
+        if not r.ok:
+            ctx.violation("written-gfa-unparsable/%s/%s" % (kind, r.cls()), "%s: %r" % (cell, w.value))
+            return
+        cands = [l for l in r.value.lines if l.record_type == rt and tag in l.tagnames]
+        if len(cands) != 1:
+            ctx.violation("tag-lost-on-write/%s" % kind, "%s: %r" % (cell, w.value))
+            return
+        cur = cands[0]
+    ctx.count("connected_read_backs")
+    ctx.add("connected_cells", "%s/%s/%s" % (rt, post, case["when"]))
+    if cur is None:
+        ctx.violation("carrier-lost/%s" % post, cell)
+        return
+    back = call(ctx, "get", cur.get, tag)
+    bdt = call(ctx, "get_datatype", cur.get_datatype, tag)
+    fs = call(ctx, "field_to_s", cur.field_to_s, tag, True)
+    if not back.ok or not equal(kind, v, back.value):
+        ctx.violation("read-back-differs/%s/after-%s" % (kind, post), "%s on %s: set %r, read back %r"
+                      % (cell, rt, v, back.value if back.ok else back.cls()))
+        return
+    if not bdt.ok or bdt.value != want_dt:
+        ctx.violation("datatype-changed/%s/after-%s" % (kind, post), "%s on %s: %r -> %r (written %r)"
+                      % (cell, rt, want_dt, bdt.value if bdt.ok else bdt.cls(), fs.value if fs.ok else fs.cls()))
+        return
+    m = S.TAGRE.fullmatch(fs.value) if fs.ok else None
+    if not m or m.group(2) != want_dt or S.tag_value_verdict(m.group(2), m.group(3))[0] == S.INVALID:
+        ctx.violation("written-tag-malformed/%s/after-%s" % (kind, post), "%s on %s: written %r"
+                      % (cell, rt, fs.value if fs.ok else fs.cls()))
+
+
 def run(case, ctx):
     if case["kind"] == "anyclass":
         return run_anyclass(case, ctx)
     kind, good, vlevel, tag = case["kind"], case["good"], case["vlevel"], case["tag"]
     text, _ = CARRIERS[case["carrier"]]
-    line = gfapy.Line(text, vlevel=vlevel)
+    g = None
+    if case.get("connected") is not None:
+        text, ver, base, ident = CONNECTED[case["connected"]]
+        line = gfapy.Line(text, vlevel=vlevel, version=ver)
+        if case["when"] == "after-connect":
+            g = _connect(ctx, line, ver, base, vlevel)
+            if g is None:
+                return
+    else:
+        line = gfapy.Line(text, vlevel=vlevel)
     v = materialise(kind, case["value"])
     if v is None:
         ctx.count("rejected_at_value_construction")
@@ -246,6 +349,9 @@ def run(case, ctx):
             return
         if not bdt.ok or bdt.value != want_dt:
             ctx.violation("read-back-datatype/%s" % kind, "%s: %r -> %r" % (cell, want_dt, bdt.value if bdt.ok else None))
+            return
+        if case.get("connected") is not None:
+            _after_connected(case, ctx, line, g, kind, v, tag, want_dt, cell)
         return
     # ---- a value the datatype cannot represent
     ctx.nontriv([kind, repr(case["value"]), how, vlevel, "bad"])
